@@ -24,7 +24,7 @@ func init() {
 			"proceeds to rate limiting. The single exception is the FORMERR answer for a malformed ECS option, which " +
 			"C05 demands and which is written before any access decision.",
 		NotCovered: "what the urlfilter engines behind IsBlockedHost / blockedHostsEng match; effects inside third-party libraries reached from the access decision.",
-		Rules: map[string]string{"C10-RC": "class rules (error chains, shadowed results, character classes, crossed arguments, pool constructors, array pools, loop completeness, loop-carried buffers, replacing setters, complete clones, Grow arithmetic, pooled-buffer escape, sorted searches, fresh decode targets, per-iteration objects, whole-message copies, codec guards) over the packages this property rests on", "C10-R12": "agdnet.NormalizeDomain is ToLower(TrimSuffix(name, \".\")); hand-written ASCII classes use inclusive boundaries", "C10-R11": "early (default) returns of the profile converters are guarded only by nil / Enabled tests of the input, never by its contents", "C10-R10": "codecs return a nil sub-message only for a nil input; access.Global keeps the whole configured subnet list and IsBlockedIP is a membership test on it",
+		Rules: map[string]string{"C10-R13": "newRequestInfo always stores the finder's answer; methods of the shared access objects do not write to their receiver", "C10-RC": "class rules (error chains, shadowed results, character classes, crossed arguments, pool constructors, array pools, loop completeness, loop-carried buffers, replacing setters, complete clones, Grow arithmetic, pooled-buffer escape, sorted searches, fresh decode targets, per-iteration objects, whole-message copies, codec guards) over the packages this property rests on", "C10-R12": "agdnet.NormalizeDomain is ToLower(TrimSuffix(name, \".\")); hand-written ASCII classes use inclusive boundaries", "C10-R11": "early (default) returns of the profile converters are guarded only by nil / Enabled tests of the input, never by its contents", "C10-R10": "codecs return a nil sub-message only for a nil input; access.Global keeps the whole configured subnet list and IsBlockedIP is a membership test on it",
 			"C10-R1": "decision tables of isBlockedByNets, matchASNs, IsBlocked, isBlockedByAccess",
 			"C10-R2": "Wrap closure: location stored before the decision; blocked edge silent; other edge proceeds",
 			"C10-R4": "question names are normalised before they are matched against access rules",
@@ -53,6 +53,11 @@ func runC10(c *an.Ctx) {
 		c.Und("C10-R10", "optional sub-messages are nil only when absent", token.NoPos, "only %d nil returns found", n)
 	}
 	c10Global(c)
+	c.Floor("C10-R13", 2)
+	c10DeviceResultSet(c)
+	if n := sharedReadOnlyMethods(c, "C10-R13", "access.Global", "access.DefaultProfile", "access.EmptyProfile"); n < 3 {
+		c.Und("C10-R13", "methods of the shared access objects", token.NoPos, "only %d methods found", n)
+	}
 	// ---- R12: the name that the blocked-name rules are matched against is the lower-cased question name
 	c.Floor("C10-R12", 1)
 	decide(c, "C10-R12", "agdnet.NormalizeDomain", an.DecideCfg{
@@ -573,4 +578,45 @@ func c10Global(c *an.Ctx) {
 // maps nil to "disabled".
 var nilWhenDisabled = map[string]string{
 	"profiledb/internal/filecachepb.authToProtobuf": "p0.Enabled=false",
+}
+
+
+// c10DeviceResultSet: the request information always carries what the device
+// finder said (also when the profile's message constructor cannot be built):
+// the access check and the drop decisions read it.
+func c10DeviceResultSet(c *an.Ctx) {
+	const k = "dnssvc/internal/ratelimitmw.(*Middleware).newRequestInfo"
+	fn := c.Fn(k)
+	if fn == nil {
+		c.Und("C10-R13", k+" always records the device result", token.NoPos, "anchor not found")
+		return
+	}
+	c.Analysed(k)
+	isStore := func(in ssa.Instruction) bool {
+		st, ok := in.(*ssa.Store)
+		if !ok {
+			return false
+		}
+		typ, field, _, ok := an.FieldOf(st.Addr)
+		if !ok || typ != "agd.RequestInfo" || field != "DeviceResult" {
+			return false
+		}
+		// the finder's own answer, not a constant
+		_, isConst := st.Val.(*ssa.Const)
+		return !isConst
+	}
+	var find ssa.Instruction
+	for _, call := range an.Calls(fn) {
+		if call.Common().IsInvoke() && call.Common().Method.Name() == "Find" {
+			find = call
+		}
+	}
+	if find == nil {
+		c.Und("C10-R13", k+" always records the device result", fn.Pos(), "no call of the device finder")
+		return
+	}
+	leak := exitAvoiding(find, nil, isStore)
+	c.Check(!leak, "C10-R13", k+" always records the device result", fn.Pos(),
+		"every path from the finder's answer to the return stores it into RequestInfo.DeviceResult",
+		"a path returns without storing the finder's answer: the request is treated as profile-less and the profile's access settings are not applied")
 }
